@@ -57,13 +57,13 @@ def kani(P, u, prop):
 #[kani::proof]
 pub fn deref_h() {
     let x = oracle::mk(&mut KaniSrc);
-    let p: *const %s = &*x;
+    let p = (&*x) as *const _ as *const %s;     // whatever Target is, the address must be the designated storage
     assert!(p == oracle::deref_addr(&x), "contract: &*x has the address of the designated field (its referent for a reference field)");
     kani::cover!(true);
 }
 """ % tgt)
     u.kani_obls["deref_h"] = ("%s/%s/Deref::deref/contract" % (prop, P.pid), "&*x as *const _ == address of the designated field of the live variant")
-    u.replay.append('{ let x = oracle::mk(s); let p: *const %s = &*x; chk(out, "&*x is the designated field", p == oracle::deref_addr(&x), true); }' % tgt)
+    u.replay.append('{ let x = oracle::mk(s); let p = (&*x) as *const _ as *const %s; chk(out, "&*x is the designated field", p == oracle::deref_addr(&x), true); }' % tgt)
     if "DerefMut" in P.focus:
         marms, earms, sarms = [], [], []
         for v in P.variants:
@@ -82,7 +82,7 @@ pub fn deref_mut_h() {
     let v: %s = <%s as Val>::draw(&mut KaniSrc);
     let want = oracle::with_target(&x, v);
     let q = oracle::deref_mut_addr(&x);
-    let p: *const %s = &mut *x;
+    let p = (&mut *x) as *mut _ as *const %s;
     assert!(p == q, "contract: &mut *x has the address of the DerefMut-designated field");
     *x = v;
     assert!(oracle::same_d(&x, &want), "contract: writing through &mut *x changes that field and nothing else");
@@ -91,5 +91,5 @@ pub fn deref_mut_h() {
 """ % (tgt, tgt, tgt))
         u.kani_obls["deref_mut_h"] = ("%s/%s/DerefMut::deref_mut/contract" % (prop, P.pid), "&mut *x is the designated field; *x = v changes only it")
         u.replay.append('{ let mut x = oracle::mk(s); let v: %s = <%s as Val>::draw(s); let want = oracle::with_target(&x, v); let q = oracle::deref_mut_addr(&x);\n'
-                        '      let p: *const %s = &mut *x; chk(out, "&mut *x is the designated field", p == q, true); *x = v;\n'
+                        '      let p = (&mut *x) as *mut _ as *const %s; chk(out, "&mut *x is the designated field", p == q, true); *x = v;\n'
                         '      chk(out, "*x = v changes only that field", oracle::same_d(&x, &want), true); }' % (tgt, tgt, tgt))
